@@ -351,16 +351,6 @@ def check_series(ctx: fw.Ctx, case: dict, h: dict, script_at: Callable[[int], tu
     return verdict
 
 
-def match_f9(f: dict) -> bool:
-    """F9: daemons._timer starts the handler from scratch (retry=0) one interval after a FINAL FAILURE."""
-    if f['sig'] != 'timer-restarted-after-final-failure':
-        return False
-    c, o = f['case'], f['observed']
-    return (c.get('driver') == 'timer' and c.get('interval') is not None and o.get('retry') == 0
-            and o.get('previous_verdict') == 'failure' and o.get('gap') is not None and o['gap'] >= min(c['interval'], 1)
-            and o.get('reset_by_state_done') is True)
-
-
 # --------------------------------------------------------------------------------------
 # generators
 # --------------------------------------------------------------------------------------
@@ -673,7 +663,8 @@ def split_series(calls: list) -> list[list]:
 
 
 TIMER_CORPUS = [
-    # F9 witnesses: a permanently failing timer, and a timer with retries=2, are invoked again every interval
+    # regression cases of the fixed finding F9: a permanently failing timer, and a timer with retries=2, must
+    # NOT be invoked again on the next interval
     ({'errors': None, 'retries': None, 'timeout': None, 'backoff': None}, [(('perm',), 0)] * 4, 1000, 10000, False, 35125),
     ({'errors': None, 'retries': 2, 'timeout': None, 'backoff': 250}, [(('arb',), 0)] * 6, 1000, 2000, False, 9125),
     ({'errors': 'P', 'retries': None, 'timeout': None, 'backoff': None}, [(('arb',), 250)] * 3, 0, 1000, True, 4125),
@@ -813,7 +804,7 @@ def part_drivers(ctx: fw.Ctx) -> None:
             sharp = r.random() < 0.4
             stop = t0 + Q + 250 * r.randrange(0, 40)
         do_timer(ctx, D, h, script, t0, interval, sharp, stop, i)
-    # hand-seeded dangerous cases (corpus/C11/*.json), incl. the witnesses of the known finding
+    # hand-seeded dangerous cases (corpus/C11/*.json), incl. the regression cases of the fixed finding F9
     import json
     for j, path in enumerate(sorted((fw.ROOT / 'corpus' / 'C11').glob('*.json'))):
         c = json.loads(path.read_text())
@@ -1156,7 +1147,7 @@ def run_parts(ctx: fw.Ctx) -> None:
 
 
 def run(ctx: fw.Ctx) -> int:
-    ctx.matchers = {'F9': match_f9}
+    ctx.matchers = {}          # F9 (timer reset after a final failure) is fixed in kopf (e01f313): a violation again
     ctx.proofs()
     ok, logtxt = fw.build_models(['Model/Outcome.v', 'Model/Attempts.v'])
     if not ok:
